@@ -181,7 +181,7 @@ def run(ctx):
     import pyfvtool as pf
     ctx.rule = ("limiters suite: every (name, r) with r from special rationals, a seeded grid over [-1e3,1e3] and powers of ten to 1e+-100; "
                 "non-trivial = r != 0, distinct by (name, r). impl_probe: direct evaluation of the property's observables on the real code")
-    ctx.extra_trusted = ["translator tools/tr_limiters.py (fail-closed ast fragment; Python float literals taken exactly)",
+    ctx.extra_trusted = ["translator tools/tr_limiters.py (symbolic tracing of the executed code, fail closed; Python float literals taken exactly)",
                          "numpy elementwise semantics of + - * / abs minimum maximum and of boolean factors"]
     ctx.prove("C13")
     try:
@@ -190,6 +190,9 @@ def run(ctx):
         ctx.broke("correspondence", "limiters/harness", traceback.format_exc()[-1200:])
     try:
         search(ctx, pf)
+        import reprprobes
+        n2 = reprprobes.extra_c13(ctx, pf)     # the zero guard at its exact thresholds
+        ctx.add_cases("impl_probe", n2, [f"threshold{i}" for i in range(min(n2, 20))])
     except Exception:
         ctx.broke("correspondence", "impl_probe/harness", traceback.format_exc()[-1200:])
 
